@@ -47,6 +47,9 @@ DOCS = [
     "type Foo { x: Int } { me { id } } extend type Query { y: Int }",
     "\"desc\" query D(\"v\" $v: Int) { echo(x: $v) } { anonymous: me { id } }",
     "{ me { ...A ...A } } fragment A on User { best { ...A } }",
+    # rules that skip a subtree (literal arguments, whole definitions) next to rules that must still see what follows inside it
+    "query Q { echo(x: 1) @skip(if: true, bogus: 2) me { friends(first: 1, nope: 2) @include(if: false, zz: [1]) { id @tag(name: \"n\", extra: {a: 1}) } } }",
+    "query Q($v: Int) { echo(f: {min: 1, bad: {deep: $w}}, x: [1, $v]) @tag(name: 1, name: 2) ...F @tag(nme: \"x\") } fragment F on Query { echo(t: A, tt: B) @skip(if: 1, iff: 2) }",
 ]
 RULES = list(specified_rules)
 N_RULES = len(RULES)
